@@ -3,6 +3,7 @@ package concurrency
 import (
 	"context"
 	"errors"
+	"fmt"
 	"time"
 
 	"github.com/dapr/kit/logger"
@@ -110,7 +111,8 @@ func VerifRunnerManager() {
 //verif:harness prop=C12 name=runner_cancels_others threads=3 sched=delay preempt=3 t_preempt=4 unwind=10 witness=lenient
 func VerifRunnerCancelsOthers() {
 	var sawDone bool
-	first := func(ctx context.Context) error { return vErrA }
+	firstErr := []error{vErrA, nil, context.Canceled, fmt.Errorf("wrapped: %w", context.Canceled)}[zzverif.Choose("first_returns", 4)]
+	first := func(ctx context.Context) error { return firstErr }
 	second := func(ctx context.Context) error {
 		<-ctx.Done()
 		zzverif.Ghost(func() { sawDone = true })
@@ -125,7 +127,11 @@ func VerifRunnerCancelsOthers() {
 	}
 	err := mgr.Run(context.Background()) // main must finish: a missing cancel is a deadlock
 	zzverif.Assert(sawDone, "other_runner_context_cancelled")
-	zzverif.Assert(errors.Is(err, vErrA), "run_error_contains_each_error")
+	if firstErr == vErrA {
+		zzverif.Assert(errors.Is(err, vErrA), "run_error_contains_each_error")
+	} else {
+		zzverif.Assert(err == nil, "run_error_nil_when_no_error")
+	}
 	zzverif.Assert(!errors.Is(err, context.Canceled), "run_error_drops_context_canceled")
 	zzverif.Cover("runner_cancels_others_done")
 }
@@ -273,7 +279,8 @@ func VerifFatalIffOverGrace() {
 //
 //verif:harness prop=C12 name=addcloser_during_run threads=5 sched=delay preempt=3 t_preempt=4 unwind=10 witness=lenient race=off
 func VerifAddCloserDuringRun() {
-	var firstCalls, lateCalls int
+	var firstCalls, lateCalls, lateFinished int
+	lateRelease := make(chan struct{})
 	mgr := NewRunnerCloserManager(vNopLogger(), nil, func(ctx context.Context) error { return nil })
 	zzverif.Assert(mgr.AddCloser(func() error {
 		zzverif.Ghost(func() { firstCalls++ })
@@ -285,18 +292,27 @@ func VerifAddCloserDuringRun() {
 		zzverif.MustFinish()
 		lateAddErr = mgr.AddCloser(func() error {
 			zzverif.Ghost(func() { lateCalls++ })
-			return nil
+			<-lateRelease // a slow closer
+			zzverif.Ghost(func() { lateFinished++ })
+			return vErrD
 		})
 		done <- struct{}{}
 	}()
+	go func() { close(lateRelease) }() // released at some point
 	runErr := mgr.Run(context.Background())
+	// Run returns only after all closers finished, with their errors joined
+	var finishedAtReturn, callsAtReturn int
+	zzverif.Ghost(func() { finishedAtReturn, callsAtReturn = lateFinished, lateCalls })
 	<-done
 	zzverif.WaitQuiescent()
-	zzverif.Assert(runErr == nil, "run_returns_nil")
 	zzverif.Assert(firstCalls == 1, "each_closer_invoked_exactly_once")
 	if lateAddErr == nil {
 		zzverif.Assert(lateCalls == 1, "closer_registered_during_run_is_invoked")
+		zzverif.Assert(callsAtReturn == 1, "run_returns_only_after_registered_closers_ran")
+		zzverif.Assert(finishedAtReturn == 1, "run_returns_only_after_all_closers_finished")
+		zzverif.Assert(errors.Is(runErr, vErrD), "run_error_contains_each_error")
 	} else {
+		zzverif.Assert(runErr == nil, "run_returns_nil")
 		zzverif.Assert(lateAddErr == ErrManagerAlreadyClosed, "late_add_closer_refused_with_sentinel")
 		zzverif.Assert(lateCalls == 0, "refused_closer_not_invoked")
 	}
